@@ -56,16 +56,16 @@ type fbFAR struct {
 }
 
 type fbQER struct {
-	Fields  []uint64
-	Values  []uint64
-	Gate    uint64
-	Cir     uint64
-	Pir     uint64
-	Cbs     uint64
-	Pbs     uint64
-	Ebs     uint64
-	Deduct  int64
-	Epoch   int
+	Fields []uint64
+	Values []uint64
+	Gate   uint64
+	Cir    uint64
+	Pir    uint64
+	Cbs    uint64
+	Pbs    uint64
+	Ebs    uint64
+	Deduct int64
+	Epoch  int
 }
 
 type fbCmd struct {
